@@ -173,11 +173,15 @@ osmium::memory::Buffer make_block(int m) {
     return b;
 }
 
+std::atomic<long> g_tasks_submitted{0};
+std::atomic<long> g_tasks_started{0};
+
 struct BlockTask {
     int m;
     bool fail;
     osmium::memory::Buffer operator()() {
         rec(json{{"e", "W.Run"}, {"m", m}});
+        ++g_tasks_started;
         perturb();
         if (fail) throw Injected{"worker task of block " + std::to_string(m)};
         return make_block(m);
@@ -217,6 +221,7 @@ class MockParser : public oid::Parser {
         set_header_value(oio::Header{});
         if (g_cfg.fk == "parse" && g_cfg.fat == m) throw Injected{"parse " + std::to_string(m)};
         if (g_cfg.pool) {
+            ++g_tasks_submitted;
             send_to_output_queue(get_pool().submit(BlockTask{m, g_cfg.fk == "work" && g_cfg.fat == m}));
         } else {
             send_to_output_queue(make_block(m));
@@ -450,6 +455,11 @@ RunResult run_script(MakeReader&& make_reader, bool real, RealAcc* acc, bool met
     for (int i = 0; i < 250 && (thr1 > thr0); ++i) {
         std::this_thread::sleep_for(std::chrono::milliseconds(2));
         thr1 = count_threads();
+    }
+    // pool tasks of this execution that have not started yet (the Reader may be gone before they run) must log their
+    // W.Run event into THIS execution's trace, not into the next one
+    for (int i = 0; i < 2500 && g_tasks_started.load() < g_tasks_submitted.load(); ++i) {
+        std::this_thread::sleep_for(std::chrono::milliseconds(2));
     }
     rr.fdleak = fds1 > fds0 ? fds1 - fds0 : 0;
     rr.thrleak = thr1 > thr0 ? thr1 - thr0 : 0;
